@@ -60,6 +60,11 @@ class QsaControlTN(TensorNetwork):
         return tensor_contract(*ts)
 
 
+def qsa_ctrl_iso_scaled(t, x):
+    # C04 iso-claim control: own flag kept while the data is rescaled
+    t.modify(data=t.data * x, left_inds=t.left_inds)
+
+
 def qsa_ctrl_map_writer(tn, tid):
     # C02 map-owner control: a non-owner function writes the lookup maps
     tn.tag_map["X"].add(tid)
